@@ -71,28 +71,28 @@ theorem csToken_plain : ∀ (t : List Nat) (f : Nat) (rest acc : List Nat), Plai
       rw [this]; simp
 
 /-- a token with the way it is written: quoted, or as it is -/
-structure Sp where
+structure Spell where
   quoted : Bool
   tok    : List Nat
 
-def Sp.text (s : Sp) : List Nat := if s.quoted then quoteTok s.tok else s.tok
-def Sp.ok (s : Sp) : Prop :=
+def Spell.text (s : Spell) : List Nat := if s.quoted then quoteTok s.tok else s.tok
+def Spell.ok (s : Spell) : Prop :=
   (∀ c ∈ s.tok, c ≠ 0) ∧ (s.quoted = false → PlainTok s.tok ∧ ∃ c r, s.tok = c :: r ∧ isCSpace c = false)
 
-def spJoin : List Sp → List Nat
+def spJoin : List Spell → List Nat
   | [] => []
   | [s] => s.text
   | s :: ss => s.text ++ 32 :: spJoin ss
 
-theorem sp_head (s : Sp) (h : s.ok) : ∃ c r, s.text = c :: r ∧ isCSpace c = false := by
-  unfold Sp.text
+theorem sp_head (s : Spell) (h : s.ok) : ∃ c r, s.text = c :: r ∧ isCSpace c = false := by
+  unfold Spell.text
   cases hq : s.quoted with
   | true => exact ⟨34, _, rfl, by decide⟩
   | false => simp only [Bool.false_eq_true, ↓reduceIte]; exact (h.2 hq).2
 
-theorem sp_token (s : Sp) (h : s.ok) (rest : List Nat) (hrest : rest = [] ∨ ∃ r, rest = 32 :: r) (f : Nat) (hf : s.text.length + 1 ≤ f) :
+theorem sp_token (s : Spell) (h : s.ok) (rest : List Nat) (hrest : rest = [] ∨ ∃ r, rest = 32 :: r) (f : Nat) (hf : s.text.length + 1 ≤ f) :
     csToken f (s.text ++ rest) 32 [] = (s.tok, rest) := by
-  unfold Sp.text at hf ⊢
+  unfold Spell.text at hf ⊢
   cases hq : s.quoted with
   | true =>
     simp only [hq, ↓reduceIte] at hf ⊢
@@ -106,8 +106,8 @@ theorem dropWhile_head (l : List Nat) (h : ∃ c r, l = c :: r ∧ isCSpace c = 
   obtain ⟨c, r, rfl, hc⟩ := h
   simp [List.dropWhile, hc]
 
-theorem csTokens_spJoin : ∀ (ss : List Sp) (f : Nat) (acc : List (List Nat)), (∀ s ∈ ss, s.ok) →
-    ss.length < f → csTokens f (spJoin ss) acc = acc.reverse ++ ss.map Sp.tok := by
+theorem csTokens_spJoin : ∀ (ss : List Spell) (f : Nat) (acc : List (List Nat)), (∀ s ∈ ss, s.ok) →
+    ss.length < f → csTokens f (spJoin ss) acc = acc.reverse ++ ss.map Spell.tok := by
   intro ss
   induction ss with
   | nil => intro f acc _ hf; obtain ⟨f', rfl⟩ : ∃ f', f = f' + 1 := ⟨f - 1, by omega⟩; simp [csTokens, spJoin]
@@ -148,7 +148,7 @@ theorem csTokens_spJoin : ∀ (ss : List Sp) (f : Nat) (acc : List (List Nat)), 
 
 /-- **C13 (command strings, mixed spellings)**: every token written quoted, or — when it is plain — as it is (backslashes included, also at
     the very end of the string); tokenizing gives back exactly the tokens -/
-theorem C13_cmdstring_mixed (ss : List Sp) (hok : ∀ s ∈ ss, s.ok) : tokenize (spJoin ss) = ss.map Sp.tok := by
+theorem C13_cmdstring_mixed (ss : List Spell) (hok : ∀ s ∈ ss, s.ok) : tokenize (spJoin ss) = ss.map Spell.tok := by
   unfold tokenize
   have hlen : ss.length < (spJoin ss).length + 1 := by
     induction ss with
@@ -163,12 +163,12 @@ theorem C13_cmdstring_mixed (ss : List Sp) (hok : ∀ s ∈ ss, s.ok) : tokenize
   have := csTokens_spJoin ss _ [] hok hlen
   simpa using this
 
-theorem C13_cmdstring_mixed_parse (c : Context) (aU aF : Bool) (pos : Option (List Nat)) (ss : List Sp) (hok : ∀ s ∈ ss, s.ok) :
-    parseString c aU aF pos (spJoin ss) = parseArgv c aU aF pos (ss.map Sp.tok) := by
+theorem C13_cmdstring_mixed_parse (c : Context) (aU aF : Bool) (pos : Option (List Nat)) (ss : List Spell) (hok : ∀ s ∈ ss, s.ok) :
+    parseString c aU aF pos (spJoin ss) = parseArgv c aU aF pos (ss.map Spell.tok) := by
   unfold parseString; rw [C13_cmdstring_mixed ss hok]
 
 /-! non-vacuity: `-v a.lp --out C:\tmp\` and a quoted token in between; the string ends in a backslash -/
-def exSp : List Sp := [⟨false, [45, 118]⟩, ⟨true, [97, 32, 98]⟩, ⟨false, [45, 45, 111, 117, 116]⟩, ⟨false, [67, 58, 92, 116, 109, 112, 92]⟩]
+def exSp : List Spell := [⟨false, [45, 118]⟩, ⟨true, [97, 32, 98]⟩, ⟨false, [45, 45, 111, 117, 116]⟩, ⟨false, [67, 58, 92, 116, 109, 112, 92]⟩]
 example : ∀ s ∈ exSp, s.ok := by
   intro s hs
   simp only [exSp, List.mem_cons, List.not_mem_nil, or_false] at hs
